@@ -1,7 +1,11 @@
 (* C09 runner: same case format as harness/C09_driver.cc; one canonical line per op.
    Both back-end models run the same history; a Fault of one side is printed and that side is
    dead for the rest of the case ("FAULT-P"/"FAULT-E" lines).  The epoll choice is "the first
-   min(n,cap) ready entries"; for a truncated poll the checker compares sets (see lib/props/C09.py). *)
+   min(n,cap) ready entries"; for a truncated poll the checker compares sets (see lib/props/C09.py).
+   LOOP = one iteration of EventLoop::loop() (extracted loop_iter) with the scripted callbacks (ON);
+   the epoll dispatch order is the kernel's: it is taken from the implementation's line
+   (order=c1,c2,.. appended by the checker), validated to be a min(n,cap)-part of the model's ready
+   set and turned into the [choice] argument (trace validation). *)
 let maxch = 400 and maxfd = 400
 let soi = string_of_int
 let sz z = string_of_z z
@@ -32,15 +36,38 @@ let cbname = function CbClose -> "close" | CbError -> "error" | CbRead -> "read"
 let act_string (a : (nat * n) list) : string =
   let l = List.sort compare (List.map (fun (c, r) -> (int_of_nat c, int_of_n r)) a) in
   cat (List.map (fun (c, r) -> soi c ^ ":" ^ soi r) l)
-let cb_string (a : (nat * n) list) : string =
+let cb_string (runs : nat -> bool) (a : (nat * n) list) : string =
   let l = List.sort (fun (c1,_) (c2,_) -> compare (int_of_nat c1) (int_of_nat c2)) a in
-  cat (List.map (fun (c, k) -> soi (int_of_nat c) ^ ":" ^ cbname k) (callbacks l))
+  cat (List.map (fun (c, k) -> soi (int_of_nat c) ^ ":" ^ cbname k) (callbacks_g runs l))
 let parse_ready (ws : string list) : (int * int) list =
   List.map (fun w -> match String.split_on_char ':' w with
     | [k; b] -> (int_of_string k, int_of_string b) | _ -> failwith "bad POLL entry") ws
+let act_string_ordered (a : (nat * n) list) : string =
+  cat (List.map (fun (c, r) -> soi (int_of_nat c) ^ ":" ^ soi (int_of_n r)) a)
+let log_string (l : (nat * cb) list) : string =
+  cat (List.map (fun (c, k) -> soi (int_of_nat c) ^ ":" ^ cbname k) l)
+let cb_of_name = function "read" -> CbRead | "write" -> CbWrite | "close" -> CbClose | _ -> CbError
+let uop_of_name = function "ER" -> UEnableR | "DR" -> UDisableR | "EW" -> UEnableW | "DW" -> UDisableW | _ -> UDisableAll
+(* indices that make [pick] return the entries of [full] in the given channel order *)
+let choice_of_order (order : int list) (full : (nat * n) list) : nat list option =
+  let rec go order l = match order with
+    | [] -> Some []
+    | c :: t ->
+      let rec idx i = function [] -> None | (c', _) :: r -> if int_of_nat c' = c then Some i else idx (i + 1) r in
+      (match idx 0 l with
+       | None -> None
+       | Some i ->
+         let l' = List.filteri (fun j _ -> j <> i) l in
+         (match go t l' with None -> None | Some rest -> Some (nat_of_int i :: rest))) in
+  go order full
 let () =
   let e = ref (Some ep_init) and p = ref (Some pp_init) in
   let alive = ref 0 and hic = ref 0 and hif = ref 0 in
+  let tied = Array.make maxch false and owner = Array.make maxch false in
+  let scripts : (int * cb * op) list ref = ref [] in
+  let runs (c : nat) : bool = let i = int_of_nat c in if i < maxch then handle_runs tied.(i) owner.(i) else true in
+  let handler (c : nat) (k : cb) : op list =
+    List.filter_map (fun (c', k', o) -> if c' = int_of_nat c && k' = k then Some o else None) !scripts in
   let loopcase = ref false in
   let bad = ref false in
   (try while true do
@@ -49,6 +76,7 @@ let () =
     | [] -> ()
     | "case" :: id :: rest ->
         e := Some ep_init; p := Some pp_init; alive := 0; hic := 0; hif := 0; bad := false;
+        Array.fill tied 0 maxch false; Array.fill owner 0 maxch false; scripts := [];
         Printf.printf "case %s abi=1,2,4,8,16,32,8192 epoll_eq_poll=1\n" id;
         (match rest with
          | ["loop"; b] -> loopcase := true;
@@ -60,32 +88,91 @@ let () =
     | _ when !loopcase -> ()
     | _ when !bad -> print_string "skipped\n"; flush stdout
     | ("open" | "wr" | "drain" | "hc" | "pc" | "fill" | "unfill" | "close") :: _ -> print_string "env\n"; flush stdout
-    | ["INJ"; _; bits] ->
-        let ks = dispatch (n_of_int (int_of_string bits)) in
-        let c = (match split_ws line with _ :: c :: _ -> c | _ -> "?") in
-        Printf.printf "inj cb=%s\n" (cat (List.map (fun k -> c ^ ":" ^ cbname k) ks)); flush stdout
-    | "POLL" :: ws ->
+    | ["INJ"; cs; bits] ->
+        let ci = int_of_string cs in
+        let ks = if ci >= 0 && ci < maxch then handle_event tied.(ci) owner.(ci) (n_of_int (int_of_string bits))
+                 else dispatch (n_of_int (int_of_string bits)) in
+        Printf.printf "inj cb=%s\n" (cat (List.map (fun k -> cs ^ ":" ^ cbname k) ks)); flush stdout
+    | ["TIE"; cs] -> let ci = int_of_string cs in tied.(ci) <- true; owner.(ci) <- true; print_string "tie\n"; flush stdout
+    | ["DROP"; cs] -> let ci = int_of_string cs in owner.(ci) <- false; print_string "drop\n"; flush stdout
+    | ["ON"; cs; kind; opn; c2s] ->
+        let c2 = nat_of_int (int_of_string c2s) in
+        let o = if opn = "RM" then Remove c2 else Upd (uop_of_name opn, c2) in
+        scripts := !scripts @ [(int_of_string cs, cb_of_name kind, o)]; print_string "on\n"; flush stdout
+    | ["OFF"] -> scripts := []; print_string "off\n"; flush stdout
+    | "LOOP" :: ws ->
+        let order = List.fold_left (fun acc w ->
+          if String.length w >= 6 && String.sub w 0 6 = "order=" then
+            Some (List.filter_map (fun x -> if x = "" then None else Some (int_of_string x))
+                    (String.split_on_char ',' (String.sub w 6 (String.length w - 6))))
+          else acc) None ws in
+        let ws = List.filter (fun w -> not (String.length w >= 6 && String.sub w 0 6 = "order=")) ws in
         let rd = parse_ready ws in
         let ready (f:nat) : n = (match List.assoc_opt (int_of_nat f) rd with Some b -> n_of_int b | None -> N0) in
         let env = cat (List.map (fun (k,b) -> soi k ^ ":" ^ soi b) (List.sort compare (List.filter (fun (_,b) -> b <> 0) rd))) in
         let es = (match !e with None -> "E dead" | Some st ->
           let full = ep_full st ready in
+          let n = min (List.length full) (int_of_nat st.e_cap) in
+          let choice = (match order with
+            | None -> Some []
+            | Some ord -> if List.length ord <> n then None else choice_of_order ord full) in
+          (match choice with
+           | None -> "E order-not-a-part-of-the-ready-set full=[" ^ act_string full ^ "]"
+           | Some ch ->
+             (match ep_loop_iter handler runs st ready ch with
+              | Ok ((st', act), log) -> e := Some st';
+                  Printf.sprintf "E ok n=%d cap=%d [%s] cb=%s" (List.length act) (int_of_nat st'.e_cap) (act_string_ordered act) (log_string log)
+              | Rejected ->
+                  (* the batch hit a violated precondition: show what was polled, the side is dead *)
+                  let s = (match ep_step st (Poll (ready, ch)) with
+                    | Ok (st', act) -> Printf.sprintf "E rejected n=%d cap=%d [%s]" (List.length act) (int_of_nat st'.e_cap) (act_string_ordered act)
+                    | _ -> "E rejected") in
+                  e := None; s
+              | Fault -> e := None; "E FAULT"))) in
+        let ps = (match !p with None -> "P dead" | Some st ->
+          (match pp_loop_iter_current handler runs st ready [] with
+           | Ok ((st', act), log) -> p := Some st';
+               Printf.sprintf "P ok n=%d [%s] cb=%s" (List.length act) (act_string_ordered act) (log_string log)
+           | Rejected ->
+               let s = (match pp_step_current st (Poll (ready, [])) with
+                 | Ok (_, act) -> Printf.sprintf "P rejected n=%d [%s]" (List.length act) (act_string_ordered act)
+                 | _ -> "P rejected") in
+               p := None; s
+           | Fault -> p := None; "P FAULT")) in
+        Printf.printf "loop env=%s %s | %s || %s\n" env es ps
+          (if !alive > 16 then "big" else state_string !e !p !hic !hif);
+        if !e = None && !p = None then bad := true;
+        flush stdout
+    | "POLL" :: ws ->
+        let rd = parse_ready ws in
+        let ready (f:nat) : n = (match List.assoc_opt (int_of_nat f) rd with Some b -> n_of_int b | None -> N0) in
+        let env = cat (List.map (fun (k,b) -> soi k ^ ":" ^ soi b) (List.sort compare (List.filter (fun (_,b) -> b <> 0) rd))) in
+        let es = (match !e with None -> "E dead [] cb=" | Some st ->
+          let full = ep_full st ready in
           (match ep_step st (Poll (ready, [])) with
            | Ok (st', act) -> e := Some st';
-               Printf.sprintf "E n=%d cap=%d [%s] cb=%s" (List.length act) (int_of_nat st'.e_cap) (act_string full) (cb_string full)
+               Printf.sprintf "E n=%d cap=%d [%s] cb=%s" (List.length act) (int_of_nat st'.e_cap) (act_string full) (cb_string runs full)
            | Rejected -> "E rejected"
            | Fault -> e := None; "E FAULT")) in
-        let ps = (match !p with None -> "P dead" | Some st ->
+        let ps = (match !p with None -> "P dead [] cb=" | Some st ->
           (match pp_step_current st (Poll (ready, [])) with
            | Ok (st', act) -> p := Some st';
-               Printf.sprintf "P n=%d [%s] cb=%s" (List.length act) (act_string act) (cb_string act)
+               Printf.sprintf "P n=%d [%s] cb=%s" (List.length act) (act_string act) (cb_string runs act)
            | Rejected -> "P rejected"
            | Fault -> p := None; "P FAULT")) in
         Printf.printf "poll env=%s %s | %s\n" env es ps; flush stdout
     | [k; a] | [k; a; _] as w ->
         let c = int_of_string a in
         let o = (match k, w with
-          | "NEW", [_; _; f] -> hif := max !hif (int_of_string f + 1); Some (New (nat_of_int c, nat_of_int (int_of_string f)))
+          | "NEW", [_; _; f] -> hif := max !hif (int_of_string f + 1);
+              if c >= 0 && c < maxch then begin
+                (* a fresh Channel object is untied (only when the NEW is going to be accepted) *)
+                let fresh = (match !e, !p with
+                  | Some st, _ -> st.e_objs (nat_of_int c) = None
+                  | None, Some st -> st.p_objs (nat_of_int c) = None
+                  | None, None -> false) in
+                if fresh then (tied.(c) <- false; owner.(c) <- false) end;
+              Some (New (nat_of_int c, nat_of_int (int_of_string f)))
           | "DEL", _ -> Some (Del (nat_of_int c))
           | "ER", _ -> Some (Upd (UEnableR, nat_of_int c))
           | "DR", _ -> Some (Upd (UDisableR, nat_of_int c))
@@ -115,7 +202,8 @@ let () =
                 | `Rej, `Ok _ | `Ok _, `Rej -> "MIXED"
                 | _ -> "ok")) in
            (if status = "ok" then (match o with New _ -> incr alive | Del _ -> decr alive | _ -> ()));
-           if String.length status >= 5 && String.sub status 0 5 = "FAULT" then Printf.printf "%s\n" status
+           if status = "MIXED" then (print_string "MIXED\n"; bad := true)
+           else if String.length status >= 5 && String.sub status 0 5 = "FAULT" then Printf.printf "%s\n" status
            else if !alive > 16 then Printf.printf "%s big\n" status
            else Printf.printf "%s %s\n" status (state_string !e !p !hic !hif)
            end);
